@@ -15,6 +15,8 @@ pub mod canon;
 pub mod trunc;
 #[path = "agent/telemetry.rs"]
 pub mod telemetry;
+#[path = "agent/logs.rs"]
+pub mod logs;
 
 pub fn main() {
     let engine = std::env::var("VERIF_ENGINE").unwrap_or_default();
@@ -25,6 +27,7 @@ pub fn main() {
         "canon" => canon::run(),
         "trunc" => trunc::run(),
         "telemetry" => telemetry::run(),
+        "logs" => logs::run(),
         _ => {
             eprintln!("unknown engine {:?}", engine);
             std::process::exit(2);
